@@ -64,8 +64,15 @@ func (s *zzBase) Close() error                     { return nil }
 // over the recording base store.
 func zzStack(nw *zzNet, base *zzBase, head *common.Beacon) CallbackStore {
 	base.beacons = append(base.beacons, head)
-	ss := &schemeStore{Store: base, last: head, sch: nw.sch, isChained: nw.sch.Name == crypto.DefaultSchemeID}
-	as := &appendStore{Store: ss, last: head}
+	// built by the tree's own constructors (the restart path: each wrapper reads its view of the head from below)
+	ss, err := NewSchemeStore(context.Background(), base, nw.sch)
+	if err != nil {
+		panic(err)
+	}
+	as, err := newAppendStore(context.Background(), ss)
+	if err != nil {
+		panic(err)
+	}
 	return NewCallbackStore(zzfake.Logger(), as)
 }
 
